@@ -544,6 +544,26 @@ def f_undeclared_path_var(d):
     op(d, "/toys/{toyId}", "delete", {"operationId": "dropToy", "tags": ["toys"], "parameters": [{"name": "force", "in": "query", "schema": {"type": "boolean"}}], "responses": {"204": {"description": "gone"}}})
 
 
+def f_undeclared_var_required_body(d):
+    """Two features on ONE operation: an undeclared path-template variable and a required request body (and one more required input)."""
+    op(d, "/notes/{noteId}/items", "post", {"operationId": "addNoteItem", "tags": ["notes"], "requestBody": {"required": True, "content": {"application/json": {"schema": ref("Pet")}}}, "responses": {"201": jresp(ref("Pet"))}})
+    op(d, "/notes/{noteId}", "put", {"operationId": "putNote", "tags": ["notes"], "parameters": [{"name": "X-Tenant", "in": "header", "required": True, "schema": {"type": "string"}}], "requestBody": {"required": True, "content": {"application/json": {"schema": ref("Pet")}}}, "responses": {"200": jresp(ref("Pet"))}})
+
+
+def f_required_with_default(d):
+    """Required inputs that also declare a default, declared BEFORE required inputs without one (parameter, header, body)."""
+    op(d, "/reports", "get", {"operationId": "listReports", "tags": ["reports"], "parameters": [
+        {"name": "page", "in": "query", "required": True, "schema": {"type": "integer", "default": 1}},
+        {"name": "X-Tenant", "in": "header", "required": True, "schema": {"type": "string"}},
+        {"name": "flag", "in": "query", "required": True, "schema": {"type": "boolean", "default": False}},
+        {"name": "q", "in": "query", "schema": {"type": "string"}}], "responses": {"200": jresp(ref("Pet"))}})
+    op(d, "/reports", "post", {"operationId": "makeReport", "tags": ["reports"], "parameters": [
+        {"name": "format", "in": "query", "required": True, "schema": {"type": "string", "default": "html"}}],
+        "requestBody": {"required": True, "content": {"application/json": {"schema": ref("Pet")}}}, "responses": {"201": jresp(ref("Pet"))}})
+    S(d)["Tuning"] = obj({"mode": {"type": "string", "default": "fast"}, "level": {"type": "integer", "default": 3}, "name": {"type": "string"}}, ["mode", "level", "name"])
+    use(d, "tuning", "Tuning")
+
+
 def f_shared_param_inline(d):
     """A component parameter with an INLINE (promoted) schema referenced from operations on different paths, plus
     path-level parameters declared AFTER the methods of their path item."""
